@@ -6,6 +6,10 @@ use crate::json::J;
 use crate::lexicon::Lexicon;
 
 pub mod c01;
+pub mod c04;
+pub mod c05;
+pub mod c08;
+pub mod c16;
 
 pub struct LangSet {
     pub apis: Vec<Box<dyn Api>>,
@@ -33,6 +37,10 @@ impl LangSet {
 pub fn run(ctx: &Ctx) -> Outcome {
     match ctx.prop.as_str() {
         "C01" => c01::run(ctx),
+        "C04" => c04::run(ctx),
+        "C05" => c05::run(ctx),
+        "C08" => c08::run(ctx),
+        "C16" => c16::run(ctx),
         other => {
             println!("ERROR unknown or unbuilt property {}", other);
             Outcome { exit_code: 2 }
@@ -44,6 +52,10 @@ pub fn run(ctx: &Ctx) -> Outcome {
 pub fn replay(ctx: &Ctx, case: &J) -> Vec<String> {
     match ctx.prop.as_str() {
         "C01" => c01::replay(case),
+        "C04" => c04::replay(case),
+        "C05" => c05::replay(case),
+        "C08" => c08::replay(case),
+        "C16" => c16::replay(case),
         other => vec![format!("replay not available for {}", other)],
     }
 }
